@@ -440,7 +440,7 @@ func gen(t *rapid.T) Case {
 		var out []string
 		for i := 0; i < n; i++ {
 			l := fmt.Sprintf("%s/%d", label, i)
-			var p []string
+			var p, twinAfter []string
 			switch k := rapid.IntRange(0, 9).Draw(t, l+"/kind"); {
 			case k < 2 && len(listed) > 0: // related to a path of another list: the same, a prefix, or a descendant
 				base := rapid.SampledFrom(listed).Draw(t, l+"/base")
@@ -455,8 +455,33 @@ func gen(t *rapid.T) Case {
 				} else {
 					p = base
 				}
-			case k < 9:
+			case k < 8:
 				p = rapid.SampledFrom(fieldPaths).Draw(t, l+"/path")
+			case k < 9:
+				// a nested path together with a single KEY that spells one of its prefixes with literal dots
+				// ("meta\\.labels" next to "meta.labels.trace"): different fields with the same dotted text
+				var deep [][]string
+				for _, fp := range fieldPaths {
+					if len(fp) >= 2 {
+						deep = append(deep, fp)
+					}
+				}
+				if len(deep) == 0 {
+					p = rapid.SampledFrom(fieldPaths).Draw(t, l+"/path")
+					break
+				}
+				p = rapid.SampledFrom(deep).Draw(t, l+"/deep_path")
+				j := len(p)
+				if len(p) >= 3 {
+					j = rapid.IntRange(2, len(p)-1).Draw(t, l+"/twin_len")
+				}
+				twin := []string{strings.Join(p[:j], ".")}
+				if rapid.Bool().Draw(t, l+"/twin_first") {
+					listed = append(listed, twin)
+					out = append(out, renderSelector(twin))
+				} else {
+					twinAfter = twin
+				}
 			default: // not in the event
 				if rapid.Bool().Draw(t, l+"/deep") {
 					p = append(append([]string{}, rapid.SampledFrom(fieldPaths).Draw(t, l+"/under")...), "nope")
@@ -466,6 +491,10 @@ func gen(t *rapid.T) Case {
 			}
 			listed = append(listed, p)
 			out = append(out, renderSelector(p))
+			if twinAfter != nil {
+				listed = append(listed, twinAfter)
+				out = append(out, renderSelector(twinAfter))
+			}
 		}
 		return out
 	}
